@@ -4,6 +4,8 @@ package memberlist
 // one synctest bubble per run, and writes one JSON line per run.
 
 import (
+	"sync"
+	crand "crypto/rand"
 	"bufio"
 	"encoding/json"
 	"fmt"
@@ -110,6 +112,9 @@ func runOne(t *testing.T, scn *Scenario, tier string, seed uint64, plan *Plan, k
 	start := time.Now()
 	body := func(t *testing.T) {
 		rand.Seed(int64(hash64(seed, 0x72616e64) >> 1))
+		// AES-GCM nonces come from crypto/rand.Reader: seeded as well, so that ciphertext bytes
+		// (and everything derived from captured traffic: mutations, compressed lengths) replay
+		crand.Reader = &detReader{x: hash64(seed, 0x6e6f6e6365)}
 		sim := newSim(seed)
 		sim.keepTrace = keepTrace
 		for _, s := range plan.YieldOff {
@@ -131,6 +136,7 @@ func runOne(t *testing.T, scn *Scenario, tier string, seed uint64, plan *Plan, k
 				}
 			}
 		}
+		sim.bindOn = sim.siteActive("decryptkey")
 		ctx.Sim = sim
 		defer func() {
 			// a panic on the driver goroutine (library code called directly, or a
@@ -536,4 +542,26 @@ func repoRoot() string {
 		return root
 	}
 	return "/repo"
+}
+
+// detReader is a seeded stand-in for crypto/rand.Reader (splitmix64 stream).
+type detReader struct {
+	mu sync.Mutex
+	x  uint64
+}
+
+func (d *detReader) Read(p []byte) (int, error) {
+	d.mu.Lock()
+	defer d.mu.Unlock()
+	for i := 0; i < len(p); {
+		d.x += 0x9e3779b97f4a7c15
+		z := d.x
+		z = (z ^ (z >> 30)) * 0xbf58476d1ce4e5b9
+		z = (z ^ (z >> 27)) * 0x94d049bb133111eb
+		z ^= z >> 31
+		for k := 0; k < 8 && i < len(p); k, i = k+1, i+1 {
+			p[i] = byte(z >> (8 * k))
+		}
+	}
+	return len(p), nil
 }
